@@ -33,7 +33,8 @@ func n3(tier string, quick, thorough int) int {
 func Spec() *run.Spec {
 	return &run.Spec{
 		ID: "C15", Level: "exploration",
-		Rule: "splat-roundtrip: one case = one random splat cloud (count 0, 1 or 2…40, thorough up to 400; positions of four magnitude classes; log-scales in [-10,4] and up to ±80; " +
+		Rule: "Since rounds 7-10: phase block-multiples (point counts that fill a 4-64 KiB staging block exactly), positions of the `residue` class (non-zero magnitudes down to float32 subnormals) and colours of 1e8...1e307 of both signs. " +
+			"splat-roundtrip: one case = one random splat cloud (count 0, 1 or 2…40, thorough up to 400; positions of four magnitude classes; log-scales in [-10,4] and up to ±80; " +
 			"FDC colours that clamp on both sides and sit exactly on the clamp boundary; opacities to ±12; unit, axis, identity, ±1-component and non-normalised quaternions — " +
 			"splat 0 of every cloud carries one of 16 special rotations) written by splat.Write, read by splat.Read and by the reference decoder, plus the reference encoding of the same cloud read by splat.Read. " +
 			"spz-decode: one case = one SPZ stream from the reference encoder; version, SH degree, gzip level cycle with the case index, fractional bits 0–255 (positions judged for 0–62), counts 0/1/n, random byte patterns incl. 24-bit sign-extension edges and half-float subnormal/Inf/NaN. " +
